@@ -30,6 +30,12 @@ CHECKS['C05'] = dict(tech='MIR symbolic execution (mirsym) of the replica handle
 CHECKS['C18'] = dict(tech='MIR symbolic execution (mirsym) of ValidatorAddrs::update, ValidatorAddrsWatch::update (coroutine) and NetAddress::is_newer + z3',
     text='bounded (committee of 2 / 3 plus an outsider, batches of <= 2 / 3 announcements): from an arbitrary authentic address book, Ok/Err classification and the resulting (and the published) book equal the specified ones on every path: only validly signed, member, strictly newer (version, timestamp) entries are stored, a rejected batch leaves the published book unchanged, two valid announcements commute',
     note='trusted: im::HashMap as association list, Watch as a mutex-guarded cell, ideal signatures; gossip scheduling outside', ref='4/C18')
+CHECKS['C15'] = dict(tech='MIR symbolic execution (mirsym) of limiter State::advance, Permit::drop, Limiter::acquire (coroutine) + z3; Kani/CBMC bounded run of the real limiter file in the thorough tier',
+    text='inductive step lemmas from an arbitrary state satisfying 0 <= reserved <= permits <= burst: invariant preserved, ticks never move backwards, permits grow by at most the elapsed ticks up to burst, a cancelled acquire changes nothing (drop glue executed), a grant reserves exactly the requested permits out of refreshed ones and writes the state only after the sleep; all states, permit counts and clock values symbolic',
+    note='trusted: clock abstract (uninterpreted quotient), awaited futures by contract; the window bound is a telescoping argument over these lemmas (assumption) plus a bounded Kani run; per-connection RPC consequence not executed', ref='4/C15')
+CHECKS['C08'] = dict(tech='Kani/CBMC on the real block_store.rs (small caches, derived capacity-2 copy) + MIR symbolic execution (mirsym) at the real capacity boundary and of EngineManager::queue_block + z3',
+    text='one operation from an arbitrary invariant-satisfying store (cache lengths 0..3 by Kani, 99..102 by MIR execution): try_push appends exactly the next block, update_persisted never shrinks the durable range and resets the queue exactly when overtaken, eviction only of durable blocks down to the capacity, every queued block cached or durable; queue_block pushes only blocks that passed verification (pre-genesis bound + execution layer, or certificate under the epoch schedule)',
+    note='trusted: each call atomic under the watch lock; blocks are pre-genesis blocks with opaque payloads; FinalBlock::verify summarised by its contract (C04); interleavings with background tasks and restart outside', ref='4/C08')
 NA = {
  'C01': 'agreement quantifies over all multi-node schedules x Byzantine behaviours x crash points of the async replica system; no bounded solver encoding of the real replicas is within reach (its local obligations are decided under C02, C03, C04, C05, C07, C11)',
  'C06': 'liveness over fair infinite suffixes from adversarially reached states; not expressible as a bounded symbolic-execution query',
